@@ -7,6 +7,8 @@
 package c15
 
 import (
+	"verif/internal/engineseam"
+
 	"encoding/json"
 	"fmt"
 	"strings"
@@ -17,8 +19,6 @@ import (
 	"github.com/vektah/gqlparser/v2/parser"
 
 	"github.com/wundergraph/graphql-go-tools/execution/graphql"
-	"github.com/wundergraph/graphql-go-tools/v2/pkg/astnormalization"
-	"github.com/wundergraph/graphql-go-tools/v2/pkg/astvalidation"
 
 	"verif/internal/fedlab"
 	"verif/internal/refexec"
@@ -87,7 +87,7 @@ func spellings(thorough bool) []spelling {
 type position struct {
 	name  string
 	kinds []string
-	wrap  func(x string) string // argument text with the value at the position
+	wrap  func(x string) string    // argument text with the value at the position
 	vtype func(kind string) string // declared type of a variable used AT the position
 }
 
@@ -212,17 +212,7 @@ func normalizedVariables(schema *graphql.Schema, q string, vars []byte) ([]byte,
 	if len(vars) > 0 {
 		req.Variables = vars
 	}
-	res, err := req.Normalize(schema,
-		astnormalization.WithRemoveFragmentDefinitions(),
-		astnormalization.WithRemoveUnusedVariables(),
-		astnormalization.WithInlineFragmentSpreads(),
-		astnormalization.WithEnableDefer(),
-		astnormalization.WithPrevalidationRules(
-			astvalidation.DeferStreamOnValidOperations(),
-			astvalidation.DeferStreamHaveUniqueLabels(),
-			astvalidation.DirectivesAreInValidLocations(),
-			astvalidation.StreamAppliedToListFieldsOnly()),
-	)
+	res, err := req.Normalize(schema, seamFirst...)
 	if err != nil {
 		return nil, err
 	}
@@ -234,7 +224,7 @@ func normalizedVariables(schema *graphql.Schema, q string, vars []byte) ([]byte,
 	} else if !vr.Valid {
 		return nil, vr.Errors
 	}
-	res, err = req.Normalize(schema, astnormalization.WithExtractVariables())
+	res, err = req.Normalize(schema, seamSecond...)
 	if err != nil {
 		return nil, err
 	}
@@ -443,3 +433,7 @@ func problemSite(p string) string {
 	}
 	return "other"
 }
+
+// The engine's admission sequence is read from the tree under test (see
+// internal/engineseam) instead of being copied here.
+var seam, seamFirst, seamSecond = engineseam.Must()
